@@ -13,6 +13,7 @@ pub mod c05;
 pub mod c09;
 pub mod c13;
 pub mod c18;
+pub mod c19;
 pub mod selftest;
 
 #[derive(Clone, Debug)]
@@ -266,6 +267,7 @@ pub fn dispatch(cfg: &RunCfg, rep: &mut Report) -> bool {
         "C09" => c09::run(cfg, rep),
         "C13" => c13::run(cfg, rep),
         "C18" => c18::run(cfg, rep),
+        "C19" => c19::run(cfg, rep),
         "ST" => selftest::run(cfg, rep),
         _ => return false,
     }
